@@ -276,6 +276,14 @@ impl GenerationPass for AvailableValuePass {
                 rule_known_values_to_stack(&mut out_memory_n, &node.reg_values_in());
                 // TODO stack reset?
 
+                // What was generated describes the operands as they were
+                // before the node. A description that still names a register
+                // the node overwrites (`csrrw t0, uscratch, t0`: the CSR gets
+                // the *old* t0) would be read with the new contents from
+                // here on.
+                out_reg_n.forget_values_reading(&killed);
+                out_memory_n.forget_values_reading(&killed);
+
                 // The zero register always reads as 0: whatever an instruction
                 // "writes" to it, nothing is known about it afterwards.
                 out_reg_n -= Register::const_zero_set().iter();
